@@ -19,6 +19,54 @@ MJ_SPARSE_PARTS = {"efc_J_rownnz", "efc_J_rowadr", "efc_J_colind"}
 MJW_SPARSE_PARTS = {"J_rownnz", "J_rowadr", "J_colind"}
 
 
+def check_contact_selection(res, fi) -> int:
+  """R-WORLD.1 on the host side of the flat contact buffer: the contacts of all worlds share one buffer in the order the
+  narrowphase threads got their slots, so the records of one world are NOT contiguous. Every `d.contact.<field>.numpy()`
+  read in get_data_into must be subscripted by a selector that is an element-wise comparison of contact.worldid with
+  world_id (a boolean mask, possibly built in two steps), never by a slice or a range."""
+  fn = fi.node
+  assigns = {}
+  for n in ast.walk(fn):
+    if isinstance(n, ast.Assign):
+      for t in n.targets:
+        base = t
+        while isinstance(base, ast.Subscript):
+          base = base.value
+        if isinstance(base, ast.Name):
+          assigns.setdefault(base.id, []).append(n.value)
+
+  def is_world_mask(name, depth=0):
+    vals = assigns.get(name, [])
+    if not vals or depth > 2:
+      return False
+    has_cmp = False
+    for v in vals:
+      if isinstance(v, ast.Call) and isinstance(v.func, ast.Name) and v.func.id in ("slice", "range"):
+        return False
+      for x in ast.walk(v):
+        if isinstance(x, ast.Call) and isinstance(x.func, ast.Name) and x.func.id == "slice":
+          return False
+        if isinstance(x, ast.Compare) and len(x.ops) == 1 and isinstance(x.ops[0], ast.Eq) and "worldid" in unparse(x.left) and unparse(x.comparators[0]) == "world_id":
+          has_cmp = True
+    return has_cmp
+
+  n = 0
+  for x in ast.walk(fn):
+    if isinstance(x, ast.Subscript) and isinstance(x.value, ast.Call) and isinstance(x.value.func, ast.Attribute) and x.value.func.attr == "numpy":
+      path = unparse(x.value.func.value)
+      if not path.startswith("d.contact.") or path == "d.contact.worldid":
+        continue
+      sel = x.slice
+      n += 1
+      ok = isinstance(sel, ast.Name) and is_world_mask(sel.id)
+      res.ob(
+        ok,
+        f"get_data_into|{path}|selector",
+        Finding("R-WORLD.1", f"io.get_data_into|{path}|selected-by-{'slice' if not ok else 'mask'}", f"`{unparse(x)[:70]}`: the contacts of world_id are selected with `{unparse(sel)[:40]}`, which is not a boolean mask `contact.worldid == world_id`; the flat contact buffer interleaves the worlds (slots are handed out per narrowphase kernel and thread), so a slice returns other worlds' contacts", f"{fi.file}:{x.lineno}"),
+      )
+  return n
+
+
 def check_layout_predicates(res, fi) -> int:
   """R-LAYOUT.14: MuJoCo decides the layout of MjData.efc_J with mj_isSparse(); mujoco_warp decides the layout of
   Data.efc.J with is_sparse() (they differ for jacobian=auto and 32 < nv < 60). Every host access to the MjData-side
@@ -176,11 +224,13 @@ def run(db, res, tier):
         if X in mujoco_attrs.MJDATA_ATTRS or True:
           pass
   res.floor("get_data_into copies", ncopy, 70)
+  ncs = check_contact_selection(res, sm.func("io.get_data_into"))
+  res.floor("per-world contact selections in get_data_into", ncs, 12)
   nlay = 0
   for fname in ("io.put_data", "io.get_data_into"):
     nlay += check_layout_predicates(res, sm.func(fname))
   res.floor("efc_J layout accesses under a layout predicate", nlay, 14)
-  res.rule_text = "R-VALID: put_model validates membership for every typed field whose enum the kernels dispatch on; R-LAYOUT: every types.Model field is an MjModel attribute (copied by name; oracle: attribute names of the installed mujoco) or assigned in put_model, every symbolic dimension of the array specs is defined in put_model's size table; get_data_into copies each MjData field from the same-named Data field at [world_id]; R-LAYOUT.14: every host access to MjData's efc_J sparse structure is control-dependent on mujoco.mj_isSparse() and every access to Data.efc's sparse structure on is_sparse()"
+  res.rule_text = "R-VALID: put_model validates membership for every typed field whose enum the kernels dispatch on; R-LAYOUT: every types.Model field is an MjModel attribute (copied by name; oracle: attribute names of the installed mujoco) or assigned in put_model, every symbolic dimension of the array specs is defined in put_model's size table; get_data_into copies each MjData field from the same-named Data field at [world_id]; R-WORLD.1 (host): every d.contact.<field> read of get_data_into is selected by a boolean mask `contact.worldid == world_id`, never by a slice (the flat buffer interleaves worlds); R-LAYOUT.14: every host access to MjData's efc_J sparse structure is control-dependent on mujoco.mj_isSparse() and every access to Data.efc's sparse structure on is_sparse()"
   res.explanation = "Coverage clauses of C31. Not decided: value equality, contact/efc reordering logic."
   res.extra["analysed"] = {"model_fields": nfields, "dimensions": ndim, "get_data_into_copies": ncopy, "enum_checks": sorted(checked)}
   res.assumptions += ["MjModel/MjData attribute names of mujoco 3.13.0 (tables/mujoco_attrs.py)"]
